@@ -370,7 +370,22 @@ pub fn gen_doc(opts: &SymOpts) -> SymDoc {
                         (if ext && chance("sym.win.addr.extreme", 1, 10) { num_u64(true, 0x20000) } else { hex(a0) }, if ext && chance("sym.win.size.extreme", 1, 10) { num_u32(true, 0x200) } else { hex(sz) })
                     }
                 };
-                let rest = if ty == b'4' { win_program(ext) } else { vec![*simkit::pick("sym.win.bp", &[b'0', b'1'])] };
+                let consistent = (ty == b'4') == (has_ps == b'1');
+                let rest = if !consistent && chance("sym.win.text_tail", 1, 3) {
+                    // a record the parser discards as inconsistent, whose last field is a long
+                    // piece of text with multi-byte characters at drawn offsets (what a warning
+                    // or a truncating log message would have to cope with)
+                    let mut t: Vec<u8> = std::iter::repeat(b'w').take(range("sym.win.tail.ascii", 40, 140) as usize).collect();
+                    for _ in 0..(1 + ch("sym.win.tail.groups", 4)) {
+                        t.extend_from_slice(["\u{e9}", "\u{63cf}", "\u{1f980}", "\u{e9}\u{63cf}\u{1f980}"][ch("sym.win.tail.char", 4) as usize].as_bytes());
+                        t.extend(std::iter::repeat(b'x').take(ch("sym.win.tail.gap", 4) as usize));
+                    }
+                    t
+                } else if ty == b'4' {
+                    win_program(ext)
+                } else {
+                    vec![*simkit::pick("sym.win.bp", &[b'0', b'1'])]
+                };
                 let mut l = b"STACK WIN ".to_vec();
                 l.push(ty);
                 for f in [a, wsize, num_u32(ext, 16), num_u32(ext, 16), num_u32(ext, 64), num_u32(ext, 32), num_u32(ext, 256), num_u32(ext, 64)] {
